@@ -31,9 +31,6 @@ func TestQuote(t *testing.T) {
 		{"\x1b\x1caaa", LangBash, `$'\x1b\x1caaa'`},
 		{"\x1b\x1caaa", LangMirBSDKorn, `$'\x1b\x1c'$'aaa'`},
 		{"\xff\x00", LangBash, &QuoteError{1, quoteErrNull}},
-		{"\ufffd", LangPOSIX, "\ufffd"},
-		{"a b\ufffd", LangPOSIX, "'a b\ufffd'"},
-		{"\ufffd\xff", LangBash, "$'\ufffd\\xff'"},
 	}
 
 	for _, test := range tests {
